@@ -78,9 +78,7 @@ def abs_elem(node, meta=False):
 def c_dt(d):
     off = d.utcoffset()
     if off is not None:
-        if off.microseconds:
-            return None
-        off = off.days * 86400 + off.seconds
+        off = off // US                      # microseconds
     return "(DT %d %d %d %d %d %d %d %s)" % (d.year, d.month, d.day, d.hour, d.minute, d.second, d.microsecond, copt(off, cz))
 
 
@@ -120,7 +118,7 @@ def vclass(v):
         return "str" + ("-empty" if v == "" else "-ws" if v != v.strip() or "\n" in v or "\t" in v else "")
     if isinstance(v, datetime):
         off = v.utcoffset()
-        return "datetime" + ("" if off is None else "-tz" if off.seconds % 60 == 0 else "-tz-seconds") + ("-micro" if v.microsecond else "")
+        return "datetime" + ("" if off is None else "-tz" if off.seconds % 60 == 0 and not off.microseconds else "-tz-seconds") + ("-micro" if v.microsecond else "")
     if isinstance(v, date): return "date"
     if isinstance(v, timedelta): return "timedelta" + ("-subsecond" if v.microseconds else "") + ("-neg" if v < timedelta(0) else "")
     return "other"
